@@ -41,6 +41,9 @@ type fsEntry struct {
 	// is run under the seeded scheduler (with an all-zero choice sequence) so
 	// that the order of backend operations is reproducible.
 	Concurrent bool
+	// DenyRemove: in half of the runs every plain removal is refused with a permission error, which makes
+	// the privileged entry point go through its escalation (chown, second attempt, forced removal)
+	DenyRemove bool
 	Run        func(ctx context.Context, fs filesystem.FS, w *fsCase) error
 }
 
@@ -103,6 +106,9 @@ var fsEntries = []fsEntry{
 	}},
 	{Name: "RemoveWithContextAndExclusionPatterns", Mutating: true, Run: func(ctx context.Context, fs filesystem.FS, w *fsCase) error {
 		return fs.RemoveWithContextAndExclusionPatterns(ctx, wSrc, "never-matches-anything")
+	}},
+	{Name: "RemoveWithPrivileges", Mutating: true, DenyRemove: true, Run: func(ctx context.Context, fs filesystem.FS, w *fsCase) error {
+		return fs.RemoveWithPrivileges(ctx, wSrc)
 	}},
 	{Name: "CleanDirWithContext", Mutating: true, Run: func(ctx context.Context, fs filesystem.FS, w *fsCase) error {
 		return fs.CleanDirWithContext(ctx, wSrc)
@@ -289,7 +295,9 @@ func runC09FS(rc *RunCtx, preCancelled bool) {
 		deadlock    string
 		mutBefore   int
 		firstMutant string
+		forcedAfter int
 	}
+	wantFullDump := false
 	exec := func(k int) execResult {
 		var r execResult
 		r.deadlock = Bubble(rc.T, func() {
@@ -324,6 +332,12 @@ func runC09FS(rc *RunCtx, preCancelled bool) {
 							r.firstMutant = op.Name + " " + op.Path
 						}
 					}
+				}
+				if entry.DenyRemove && exdev && op.Name == "remove" {
+					return &Fault{Err: &os.PathError{Op: "remove", Path: op.Path, Err: syscall.EACCES}}
+				}
+				if ended && op.Name == "forceremove" {
+					r.forcedAfter++
 				}
 				if exdev && op.Name == "rename" {
 					return &Fault{Err: &os.LinkError{Op: "rename", Old: op.Path, New: op.Path2, Err: syscall.EXDEV}}
@@ -365,7 +379,7 @@ func runC09FS(rc *RunCtx, preCancelled bool) {
 			r.ops = w.seam.OpCount()
 			r.balance = w.seam.Balance()
 			r.openPaths = w.seam.OpenPaths()
-			if k < 0 {
+			if k < 0 || (r.err == nil && (k < 1<<30 || wantFullDump)) {
 				r.after = dumpFs(w.backend, wRoot)
 			}
 			if w.cs.reader != nil {
@@ -406,8 +420,10 @@ func runC09FS(rc *RunCtx, preCancelled bool) {
 		}
 		return
 	}
-	// part C: full run first
+	// part C: full run first (its final tree is the complete result)
+	wantFullDump = true
 	full := exec(1 << 30)
+	wantFullDump = false
 	if full.infra != "" {
 		res.Infra = full.infra
 		return
@@ -472,9 +488,17 @@ func runC09FS(rc *RunCtx, preCancelled bool) {
 		if r.err == nil {
 			if remaining > bound {
 				viol("nil-after-context-end", fmt.Sprintf("context ended after operation %d of %d but the call returned nil", k, n))
+			} else if d := diffDumps(full.after, r.after, 5); len(d) > 0 && !entry.Concurrent {
+				// success may only be reported if the work was actually completed
+				viol("nil-after-context-end-with-incomplete-result", fmt.Sprintf("context ended after operation %d of %d; the call returned nil but its result is incomplete (complete -> actual): %v", k, n, d))
 			}
 		} else if !isCtxKind(r.err) && !commonerrors.Any(r.err, commonerrors.ErrEOF) {
 			viol("wrong-kind-after-context-end", fmt.Sprintf("context ended after operation %d of %d: returned %v", k, n, r.err))
+		}
+		// a forced removal that directly follows the operation during which the context ended is the one bounded step the
+		// property allows (the last context test preceded that operation); anything else means escalation after the end was seen
+		if r.forcedAfter > 0 && r.opsAfter > 1 {
+			viol("forced-removal-after-context-end", fmt.Sprintf("context ended after operation %d of %d: the privileged recursive removal was still issued afterwards; returned %v", k, n, r.err))
 		}
 		if r.readsAfter > 0 {
 			viol("read-after-context-done", fmt.Sprintf("context ended after operation %d: %d reads reached the source stream afterwards", k, r.readsAfter))
